@@ -754,6 +754,7 @@ func levels(tier string) []elevel {
 	}
 	add("near-miss:bases exprA<=3,stmt<=4,prec<=2 with <=12 tokens", func(w *worker) bool { return w.nearFrom(nearSrc(3, 4, 2), 12) })
 	add("wide:every unit of size<=2 as n equal neighbours in 12 kinds of sequence, n up to 1025 (thorough: 4097)", func(w *worker) bool { return w.levelWide(thorough) })
+	add("repl:every literal spelling and every single statement of size<=4 (thorough 5) through ParseCompoundStmt, one line per call", func(w *worker) bool { return w.levelREPL(thorough) })
 	add("prec:k=3(all ordered triples,all shapes; base layouts)", func(w *worker) bool { return w.levelPrec(3, all, "prec", 0) })
 	add("exprA:size=4,depth<=3(single deviations)", func(w *worker) bool { return w.levelExpr(pa, 4, 3, 1) })
 	add("stmt:size=4(single deviations)", func(w *worker) bool { return w.levelStmt(ps, 4, 1) })
@@ -874,6 +875,10 @@ func replay(c *fw.Ctx, raw json.RawMessage) []fw.Viol {
 	switch vc.Kind {
 	case "tree":
 		if errs := judgeTree(src, vc.Tree, vc.Expr, vc.Either); len(errs) > 0 {
+			return []fw.Viol{{Key: vc.Key, What: strings.Join(errs, "; ")}}
+		}
+	case "repl":
+		if errs := judgeREPL(src, vc.Tree, vc.Either); len(errs) > 0 {
 			return []fw.Viol{{Key: vc.Key, What: strings.Join(errs, "; ")}}
 		}
 	case "wide":
